@@ -905,8 +905,9 @@ export class RegexRuntype extends BaseRuntype {
 
   constructor(metadata: RuntypeMetadata | undefined, regex: RegExp, description: string) {
     super(metadata);
-    // the compiler emits the expression without anchors; a template literal type describes the whole string
-    this.regex = new RegExp(`^(?:${regex.source})$`, regex.flags);
+    // the compiler emits the expression without anchors; a template literal type describes the whole string,
+    // and `${string}` (emitted as `.*`) stands for any text, line breaks included
+    this.regex = new RegExp(`^(?:${regex.source})$`, regex.flags.includes("s") ? regex.flags : regex.flags + "s");
     this.description = description;
   }
 
